@@ -256,6 +256,50 @@ func VerifC19VerifiedCredentialsList(st int) {
 	}
 }
 
+// VerifC19ActivateGroup: the request names (which) 0 anything / 1 a contact group the secret store knows / 2 a
+// multi-member group it knows / 3 the account group. Opening the OrbitDB stores themselves is outside (contract:
+// OpenGroup / openAccountGroup answer with an error); everything before it -- key parsing, group lookup and reindexing,
+// the per-type preparation that needs the account group -- is executed.
+func VerifC19ActivateGroup(st, which int) {
+	s, mm := verifService(st)
+	ctx := verif_background()
+	req := &protocoltypes.ActivateGroup_Request{}
+	verif_fillAny(req)
+	switch which {
+	case 1:
+		_, opk := verifFreshKey()
+		cg, err := s.secretStore.GetGroupForContact(opk)
+		verif_assume(err == nil)
+		verif_assume(s.secretStore.PutGroup(ctx, cg) == nil)
+		req.GroupPk = cg.PublicKey
+	case 2:
+		g := mm
+		if g == nil {
+			var err error
+			g, _, err = protocoltypes.NewGroupMultiMember()
+			verif_assume(err == nil)
+		}
+		verif_assume(s.secretStore.PutGroup(ctx, g) == nil)
+		req.GroupPk = g.PublicKey
+	case 3:
+		g, _, err := s.secretStore.GetGroupForAccount()
+		verif_assume(err == nil)
+		req.GroupPk = g.PublicKey
+	}
+	_, err := s.ActivateGroup(ctx, req)
+	if st == 0 && which == 1 {
+		verif_assert(err != nil, "C19: a contact group cannot be activated while the account group is deactivated: answered with an error")
+	}
+	verif_reach("C19.activate.returned")
+}
+
+func VerifC19DeactivateGroup(st int) {
+	s, _ := verifService(st)
+	req := &protocoltypes.DeactivateGroup_Request{}
+	verif_fillAny(req)
+	_, _ = s.DeactivateGroup(verif_background(), req)
+}
+
 func VerifC19Witness() {
 	s, _ := verifService(1)
 	req := &protocoltypes.ContactRequestSend_Request{}
